@@ -256,6 +256,14 @@ HOSTILE_MAPS: list[dict | None] = [
     {None: XSI},
     {"xs": NS_B, "ns3": NS_A},
     {None: NS_C, "a": NS_A, "b": NS_B},
+    # generator-style prefixes nsL, nsL+1 already taken, L = the size of the map: the prefix generator has to walk
+    # past BOTH (the second one is the prefix of the element's own namespace)
+    {"ns2": "urn:h", "ns3": NS_A},
+    {"ns3": "urn:h", "ns4": NS_A, "z": "urn:h2"},
+    {"ns4": "urn:h", "ns5": NS_A, "y": "urn:h2", "z": "urn:h3"},
+    {"ns2": "urn:h", "ns3": NS_B},
+    {"ns3": "urn:h", "ns4": NS_B, "z": "urn:h2"},
+    {"ns2": NS_A, "ns3": NS_B},
 ]
 
 TEXTS = ["", "t", "a b", " lead", "trail ", "<&\"'>", "]]>", "x\ty", "l1\nl2", "\U0001F600", "é", "0", "true"]
